@@ -123,7 +123,10 @@ class C17(Check):
                     if rng.random() < 0.5:
                         a[2] = rng.choice(['', '0', ' '])
                     reqs.append([[a[0], a[1]]] + ([[None, 'absent']] if rng.random() < 0.5 else []))
-                out.append({'kind': 'validate', 'tree': t, 'tags': tags, 'reqs': reqs})
+                if rng.random() < 0.3:
+                    # one allowed tag that merely CONTAINS / EXTENDS the root's name (or the other way round)
+                    tags = [[t[1], t[2] + rng.choice(['-reply', 'uration', 'x'])]] if rng.random() < 0.5 else [[t[1], t[2][:max(1, len(t[2]) - 1)]]]
+                out.append({'kind': 'validate', 'tree': t, 'tags': tags, 'reqs': reqs, 'single_str': rng.random() < 0.5})
             else:
                 old, new = rng.choice(X.NSS), rng.choice(X.NSS + ['urn:new'])
                 # avoid attribute collisions after renaming (premise)
@@ -192,6 +195,10 @@ class C17(Check):
             el = X.to_lxml(case['tree'])
             tags = [X.q(a, b) for a, b in case['tags']]
             attrs = [[X.q(a, b) for a, b in alts] for alts in case['reqs']]
+            if case.get('single_str') and len(tags) == 1:
+                tags = tags[0]                                  # the documented "single allowable tag name" form
+            if case.get('single_str') and attrs and all(len(a) == 1 for a in attrs):
+                attrs = [a[0] for a in attrs]                   # each requirement a plain name instead of a list of alternatives
             try:
                 nx.validated_element(nx.to_xml(el), tags or None, attrs or None)
                 return {'ok': True}
